@@ -27,6 +27,9 @@ pub struct Case {
   /// secondary / notifier input of that two-input operator over a hot main
   pub secondary: Option<&'static str>,
   pub middle: Vec<Op>,
+  /// secondary position only: the main input is cold and terminates at subscription
+  /// (1 = throw, 2 = empty) instead of a hot subject followed by a cutter
+  pub main_cold: u8,
   pub cutter: Op,
   pub flavor: Flavor,
   pub policy: Policy,
@@ -63,6 +66,11 @@ pub fn chain_of(c: &Case) -> Chain {
         _ => Op::MergeAll(2, vec![inner]),
       };
       Chain::new(Src::Hot(0), vec![fl, c.cutter.clone()])
+    }
+    Some(op) if c.main_cold > 0 => {
+      let sec = prod_chain(&c.prod, &c.middle);
+      let main = if c.main_cold == 1 { Src::Throw(7) } else { Src::Empty };
+      Chain::new(main, vec![crate::props::c04::mk_op(op, sec)])
     }
     Some(op) => {
       let sec = prod_chain(&c.prod, &c.middle);
@@ -311,7 +319,7 @@ pub fn run(cfg: &Cfg, rep: &mut Report) {
           1 => Op::First,
           _ => cutters(&mut r),
         };
-        let c = Case { prod: p.clone(), secondary: None, middle: vec![m.clone()], cutter, flavor: Flavor::Local, policy: Policy::Fifo, seed: r.next() };
+        let c = Case { prod: p.clone(), secondary: None, middle: vec![m.clone()], main_cold: 0, cutter, flavor: Flavor::Local, policy: Policy::Fifo, seed: r.next() };
         check(cfg, rep, &format!("sweep:{}", idx), &c);
       }
     }
@@ -352,7 +360,7 @@ pub fn run(cfg: &Cfg, rep: &mut Report) {
           if !cfg.mine(idx) {
             continue;
           }
-          let c = Case { prod: p.clone(), secondary: None, middle: vec![d.clone(), t.clone()], cutter: Op::Take(1), flavor, policy: Policy::Fifo, seed: r.next() };
+          let c = Case { prod: p.clone(), secondary: None, middle: vec![d.clone(), t.clone()], main_cold: 0, cutter: Op::Take(1), flavor, policy: Policy::Fifo, seed: r.next() };
           rep.count("ended_from_the_side_cases", 1);
           check(cfg, rep, &format!("side:{}", idx), &c);
         }
@@ -370,8 +378,26 @@ pub fn run(cfg: &Cfg, rep: &mut Report) {
             continue;
           }
           let cutter = if k == 0 { Op::Take(1) } else { cutters(&mut r) };
-          let c = Case { prod: p.clone(), secondary: Some(op), middle: vec![], cutter, flavor, policy: Policy::Fifo, seed: r.next() };
+          let c = Case { prod: p.clone(), secondary: Some(op), middle: vec![], main_cold: 0, cutter, flavor, policy: Policy::Fifo, seed: r.next() };
           check(cfg, rep, &format!("sec:{}", idx), &c);
+        }
+      }
+    }
+  }
+  // the main input ends the stream at subscription time (throw / empty): the producer in the
+  // other input is subscribed to a stream that is already over (or ends before it gets going)
+  for op in two.iter().filter(|o| !o.starts_with("inner-of-")) {
+    for p in &prods {
+      for flavor in [Flavor::Local, Flavor::Threads] {
+        for main_cold in [1u8, 2] {
+          idx += 1;
+          let mut r = rng.fork();
+          if !cfg.mine(idx) {
+            continue;
+          }
+          let c = Case { prod: p.clone(), secondary: Some(op), middle: vec![], main_cold, cutter: Op::Take(1), flavor, policy: Policy::Fifo, seed: r.next() };
+          rep.count("main_input_over_at_subscription_cases", 1);
+          check(cfg, rep, &format!("seccold:{}", idx), &c);
         }
       }
     }
@@ -390,6 +416,7 @@ pub fn run(cfg: &Cfg, rep: &mut Report) {
       prod: prods[r.below(prods.len())].clone(),
       secondary: if r.chance(1, 3) { Some(two[r.below(two.len())]) } else { None },
       middle,
+      main_cold: 0,
       cutter: cutters(&mut r),
       flavor: if r.chance(1, 3) { Flavor::Threads } else { Flavor::Local },
       policy: if r.chance(1, 2) { Policy::Fifo } else { Policy::Any },
